@@ -37,6 +37,9 @@ type attackKind struct {
 	QMin func(variant string) (int, bool)
 	// SigVariant: violation signatures of this kind carry the variant (narrower).
 	SigVariant bool
+	// Repeat, when set, lists further questions asked (and judged like the
+	// trigger's repeat) in every phase after the attacker went quiet.
+	Repeat func(cr *caseRun) []question
 }
 
 func q(name string, t uint16) func(string) (string, uint16) {
@@ -121,7 +124,14 @@ var nBaseKinds int
 func init() {
 	defer func() {
 		nBaseKinds = len(kinds)
-		kinds = append(kinds, burstKinds()...)
+		kindGroups = []kindGroup{
+			{Base: 0, Kinds: kinds[:nBaseKinds:nBaseKinds]},
+			{Base: extraIndexBase, Kinds: burstKinds()},
+			{Base: ladderIndexBase, Kinds: ladderKinds()},
+		}
+		for _, g := range kindGroups[1:] {
+			kinds = append(kinds, g.Kinds...)
+		}
 	}()
 	kinds = []*attackKind{
 		// ---------------------------------------------------------------- spoof --
